@@ -226,6 +226,11 @@ class proceed:
             for sel, acc in outer_pairs
             if not sel.immediate and (id(sel), id(acc)) not in have
         ]
+        # Precedence goes by order of activation, as it stands now
+        rank = {}
+        for i, (_, acc) in enumerate(outer_pairs):
+            rank.setdefault(id(acc.origin), i)
+        pairs.sort(key=lambda pair: rank[id(pair[1].origin)])
         self.inner = HandlerCollection(pairs)
 
     def __exit__(self, typ, exc, tb):
